@@ -1568,51 +1568,9 @@ func c07IncrementField(c *Ctx, r *Report, rule string) {
 			n++
 			arg := ast.Unparen(ce.Args[0])
 			origin, okOrigin := "", false
-			o := identObj(info, arg)
-			switch {
-			case o != nil && params[o]:
-				okOrigin, origin = true, "the sample itself"
-			case o != nil:
-				// all definitions of the variable
-				defs := 0
-				good := true
-				ast.Inspect(fd.Body, func(y ast.Node) bool {
-					as, ok := y.(*ast.AssignStmt)
-					if !ok {
-						return true
-					}
-					for i, l := range as.Lhs {
-						if identObj(info, l) != o {
-							continue
-						}
-						defs++
-						var rhs ast.Expr
-						if len(as.Rhs) == 1 {
-							rhs = as.Rhs[0]
-						} else if len(as.Rhs) == len(as.Lhs) {
-							rhs = as.Rhs[i]
-						}
-						src, isCall := ast.Unparen(rhs).(*ast.CallExpr)
-						switch {
-						case isCall && i == 0 && (strings.HasSuffix(calleeName(info, src), "stringSplitter.Splitter).Next") || strings.HasSuffix(calleeName(info, src), "stringSplitter.Splitter).NextOk")):
-							origin = "the field splitter"
-						default:
-							if ix, isIx := ast.Unparen(rhs).(*ast.IndexExpr); isIx {
-								if def := aliasDef(info, fd.Body, ix.X); def != nil {
-									if c2, ok := ast.Unparen(def).(*ast.CallExpr); ok && calleeName(info, c2) == "strings.Split" {
-										origin = "strings.Split"
-										continue
-									}
-								}
-							}
-							good = false
-							origin = exprStr(rhs)
-						}
-					}
-					return true
-				})
-				okOrigin = good && defs > 0
-			default:
+			if o := identObj(info, arg); o != nil {
+				okOrigin, origin = c07FieldOrigin(c, info, fd.Body, o, params, 0)
+			} else {
 				origin = exprStr(arg)
 			}
 			r.Check(okOrigin, rule, fi.Name, exprStr(ce), c.Pos(ce.Pos()), "flow: the parsed increment is one field of the sample ("+origin+")",
@@ -1728,4 +1686,126 @@ func init() {
 			}
 		}
 	}
+}
+
+// c07FieldOrigin: is every definition of o (inside body) one field of the sample - the field
+// splitter's Next / NextOk, an element of strings.Split, the sample parameter itself - or the
+// corresponding result of a private helper of the package for which the same holds?
+func c07FieldOrigin(c *Ctx, info *types.Info, body *ast.BlockStmt, o types.Object, params map[types.Object]bool, depth int) (bool, string) {
+	if params[o] {
+		return true, "the sample itself"
+	}
+	if depth > 2 {
+		return false, "a chain of helpers"
+	}
+	defs, good, origin := 0, true, ""
+	ast.Inspect(body, func(y ast.Node) bool {
+		as, ok := y.(*ast.AssignStmt)
+		if !ok {
+			return true
+		}
+		for i, l := range as.Lhs {
+			if identObj(info, l) != o {
+				continue
+			}
+			defs++
+			var rhs ast.Expr
+			if len(as.Rhs) == 1 {
+				rhs = as.Rhs[0]
+			} else if len(as.Rhs) == len(as.Lhs) {
+				rhs = as.Rhs[i]
+			}
+			src, isCall := ast.Unparen(rhs).(*ast.CallExpr)
+			switch {
+			case isCall && i == 0 && (strings.HasSuffix(calleeName(info, src), "stringSplitter.Splitter).Next") || strings.HasSuffix(calleeName(info, src), "stringSplitter.Splitter).NextOk")):
+				origin = "the field splitter"
+				continue
+			case isCall && len(as.Rhs) == 1:
+				// the i-th result of a private helper of the package
+				if f := calleeFunc(info, src); f != nil && !f.Exported() && c.IsRarePkg(f.Pkg()) {
+					if hfi := funcDeclOf(c, f); hfi != nil && hfi.Decl.Body != nil && hfi.Decl.Type.Results != nil {
+						hinfo := hfi.Pkg.TypesInfo
+						hparams := map[types.Object]bool{}
+						// a parameter of the helper stands for the sample only when the caller passes the sample
+						pi := 0
+						for _, fld := range hfi.Decl.Type.Params.List {
+							for _, nm := range fld.Names {
+								if pi < len(src.Args) && params[identObj(info, src.Args[pi])] {
+									hparams[hinfo.Defs[nm]] = true
+								}
+								pi++
+							}
+						}
+						var resObjs []types.Object
+						named := true
+						for _, fld := range hfi.Decl.Type.Results.List {
+							if len(fld.Names) == 0 {
+								named = false
+							}
+							for _, nm := range fld.Names {
+								resObjs = append(resObjs, hinfo.Defs[nm])
+							}
+						}
+						okH, why := false, "a helper result"
+						if named && i < len(resObjs) {
+							okH, why = c07FieldOrigin(c, hinfo, hfi.Decl.Body, resObjs[i], hparams, depth+1)
+							// a named result may also be returned explicitly
+							inspectNoLit(hfi.Decl.Body, func(z ast.Node) bool {
+								if rs, isRet := z.(*ast.ReturnStmt); isRet && len(rs.Results) > i {
+									if ro := identObj(hinfo, rs.Results[i]); ro == nil {
+										okH = false
+									} else if ro != resObjs[i] {
+										if ok2, _ := c07FieldOrigin(c, hinfo, hfi.Decl.Body, ro, hparams, depth+1); !ok2 {
+											okH = false
+										}
+									}
+								}
+								return true
+							})
+						} else if !named {
+							okH = true
+							nret := 0
+							inspectNoLit(hfi.Decl.Body, func(z ast.Node) bool {
+								if rs, isRet := z.(*ast.ReturnStmt); isRet {
+									nret++
+									if len(rs.Results) <= i {
+										okH = false
+									} else if ro := identObj(hinfo, rs.Results[i]); ro == nil {
+										okH = false
+									} else if ok2, w2 := c07FieldOrigin(c, hinfo, hfi.Decl.Body, ro, hparams, depth+1); !ok2 {
+										okH, why = false, w2
+									} else {
+										why = w2
+									}
+								}
+								return true
+							})
+							if nret == 0 {
+								okH = false
+							}
+						}
+						if okH {
+							origin = why + " (through " + f.Name() + ")"
+							continue
+						}
+					}
+				}
+				good = false
+				origin = exprStr(rhs)
+			default:
+				if ix, isIx := ast.Unparen(rhs).(*ast.IndexExpr); isIx {
+					if def := aliasDef(info, body, ix.X); def != nil {
+						if c2, ok := ast.Unparen(def).(*ast.CallExpr); ok && calleeName(info, c2) == "strings.Split" {
+							origin = "strings.Split"
+							continue
+						}
+					}
+				}
+				good = false
+				origin = exprStr(rhs)
+			}
+		}
+		return true
+	})
+	return good && defs > 0, origin
 }
